@@ -34,13 +34,49 @@ type scenario struct {
 	Warm []warmCall `json:"warm,omitempty"`
 	// Passes is the number of complete paging passes over the same model (0 means 1).
 	Passes int `json:"passes,omitempty"`
+	// NInit: the first NInit ids are configured as initial records (the model's WithInitial… option), the others
+	// are created through the creation API (hail: UpdateHail with resource.WithCreateIfAbsent()).
+	NInit int `json:"ninit,omitempty"`
 }
 
 // storeOp is one call of a creation / update / deletion API of the model.
 type storeOp struct {
-	Kind string `json:"kind"`           // add | ensure | update | delete
-	ID   string `json:"id"`             // add: "" = the model invents the id
+	Kind string `json:"kind"`          // add | ensure | update | delete
+	ID   string `json:"id"`            // add: "" = the model invents the id
 	Alt  bool   `json:"alt,omitempty"` // ensure: through AddChildTrait instead of AddChild; update: the written message does not carry the id
+	// update only:
+	MsgID  string `json:"msg_id,omitempty"` // the written message carries THIS id, not ID (APIs that take the id as a separate argument)
+	Upsert bool   `json:"upsert,omitempty"` // resource.WithCreateIfAbsent()
+	Mask   string `json:"mask,omitempty"`   // "" = no update mask, "key" = a mask naming the key field, "nokey" = a mask leaving it out
+	// delete only: resource.WithAllowMissing(true) / allow_missing
+	AllowMissing bool `json:"allow_missing,omitempty"`
+	// Via: "" = the model's Go API; "rpc" = the trait server's own Create… / Update… / Delete… RPC; "ack" =
+	// AcknowledgePublication (a masked update of an existing publication); "dispense" = vending Dispense (an update
+	// of an existing stock). Only where the server has such an RPC.
+	Via string `json:"via,omitempty"`
+}
+
+func (op storeOp) String() string {
+	s := op.Kind + ":" + op.ID
+	if op.Alt {
+		s += ":alt"
+	}
+	if op.MsgID != "" {
+		s += ":msg=" + op.MsgID
+	}
+	if op.Upsert {
+		s += ":upsert"
+	}
+	if op.Mask != "" {
+		s += ":mask=" + op.Mask
+	}
+	if op.AllowMissing {
+		s += ":allow-missing"
+	}
+	if op.Via != "" {
+		s += ":via=" + op.Via
+	}
+	return s
 }
 
 type warmCall struct {
@@ -226,6 +262,16 @@ func runOp(inst *instance, op storeOp) (out string, got string) {
 	var err error
 	unsupported := false
 	p, msg := lib.Catch(func() {
+		if op.Via != "" {
+			if inst.via == nil {
+				unsupported = true
+				return
+			}
+			var handled bool
+			handled, got, err = inst.via(op)
+			unsupported = !handled
+			return
+		}
 		switch op.Kind {
 		case "add":
 			if inst.add == nil {
@@ -245,10 +291,18 @@ func runOp(inst *instance, op storeOp) (out string, got string) {
 				unsupported = true
 				return
 			}
-			err = inst.update(op.ID, op.Alt)
+			err = inst.update(op)
 			got = op.ID
 		case "delete":
-			err = inst.del(op.ID)
+			if op.AllowMissing {
+				if inst.delAllow == nil {
+					unsupported = true
+					return
+				}
+				err = inst.delAllow(op.ID)
+			} else {
+				err = inst.del(op.ID)
+			}
 			got = op.ID
 		default:
 			unsupported = true
@@ -263,6 +317,8 @@ func runOp(inst *instance, op storeOp) (out string, got string) {
 		return "panic:" + msg, ""
 	case err == nil:
 		return "ok " + hexID(got), got
+	case op.Kind == "update" && op.ID == "":
+		return "rejected", "" // no item can be stored under the empty id: any error status will do
 	}
 	switch codeName(err) {
 	case "AlreadyExists":
@@ -282,7 +338,10 @@ func (sc scenario) run() (res runResult, err error) {
 		return res, fmt.Errorf("unknown rpc %q", sc.RPC)
 	}
 	var inst *instance
-	panicked, msg := lib.Catch(func() { inst, err = r.build(sc.IDs) })
+	if sc.NInit < 0 || sc.NInit > len(sc.IDs) {
+		return res, fmt.Errorf("ninit %d out of range", sc.NInit)
+	}
+	panicked, msg := lib.Catch(func() { inst, err = r.build(r, sc.IDs, sc.NInit) })
 	if panicked {
 		return res, fmt.Errorf("building the collection panicked: %s", msg)
 	}
@@ -326,6 +385,12 @@ func (sc scenario) run() (res runResult, err error) {
 			}
 		case "ensure":
 			if op.ID != "" && !has(op.ID) {
+				present = append(present, op.ID)
+			}
+		case "update":
+			// an update never renames an item, whatever id the written message carries; with create-if-absent it
+			// creates the item under ID (the empty id names no item)
+			if op.Upsert && op.ID != "" && !has(op.ID) {
 				present = append(present, op.ID)
 			}
 		case "delete":
@@ -408,13 +473,63 @@ func (sc scenario) driverLines(variant string, res runResult) []modelQ {
 		return modelQ{fmt.Sprintf("page %s %d %s %d", variant, c.Size, c.Tok, vis), c.Out, key, fmt.Sprintf("%s %d", where, i)}
 	}
 	if variant != "waste" {
-		qs = append(qs, modelQ{Line: "keys " + hexList(res.base)})
+		if len(sc.IDs) <= 8 {
+			// the construction itself, route by route: initial records, then the creation API, then the deletions
+			qs = append(qs, modelQ{Line: "keys -"})
+			for i, id := range sc.IDs {
+				var line, route string
+				switch {
+				case i < sc.NInit:
+					line, route = "sop initial "+hexID(id), "initial"
+				case sc.RPC == "parent.ListChildren":
+					line, route = "sop ensure "+hexID(id), "add-child"
+				case sc.RPC == "hail.ListHails":
+					line, route = "sop updm "+hexID(id)+" 1 n", "create-if-absent"
+				default:
+					line, route = "sop add "+hexID(id)+" -", "create"
+				}
+				qs = append(qs, modelQ{line, "ok " + hexID(id), sc.RPC + "|build|" + route, fmt.Sprintf("build %d", i)})
+			}
+			for i, d := range sc.Delete {
+				qs = append(qs, modelQ{"sop delete " + hexID(d) + " 0", "ok " + hexID(d), sc.RPC + "|build|delete", fmt.Sprintf("build delete %d", i)})
+			}
+		} else {
+			qs = append(qs, modelQ{Line: "keys " + hexList(res.base)})
+		}
 		for i, op := range sc.Ops {
 			line := "sop " + op.Kind + " " + hexID(op.ID)
-			if op.Kind == "add" {
+			switch op.Kind {
+			case "delete":
+				if op.AllowMissing {
+					line += " 1"
+				} else {
+					line += " 0"
+				}
+			case "add":
 				line += " " + hexID(res.gen[i])
+			case "update":
+				up, mk := 0, "n"
+				if op.Upsert {
+					up = 1
+				}
+				switch op.Mask {
+				case "key":
+					mk = "k"
+				case "nokey":
+					mk = "x"
+				}
+				if sc.RPC == "publication.ListPublications" {
+					// the id is a separate argument: the message's own id travels too
+					msgID := op.MsgID
+					if msgID == "" && !op.Alt {
+						msgID = op.ID
+					}
+					line = fmt.Sprintf("sop updi %s %s %d %s", hexID(op.ID), hexID(msgID), up, mk)
+				} else {
+					line = fmt.Sprintf("sop updm %s %d %s", hexID(op.ID), up, mk)
+				}
 			}
-			qs = append(qs, modelQ{line, res.ops[i], fmt.Sprintf("%s|op|%s|%v|%v|%s", sc.RPC, op.Kind, op.ID == "", op.Alt, strings.SplitN(res.ops[i], " ", 2)[0]), fmt.Sprintf("op %d", i)})
+			qs = append(qs, modelQ{line, res.ops[i], fmt.Sprintf("%s|op|%s|%v|%v|%v|%v|%s|%v|%s|%s", sc.RPC, op.Kind, op.ID == "", op.Alt, op.MsgID != "", op.Upsert, op.Mask, op.AllowMissing, op.Via, strings.SplitN(res.ops[i], " ", 2)[0]), fmt.Sprintf("op %d", i)})
 		}
 		// Collection.List: the ids of the map, sorted
 		qs = append(qs, modelQ{"listing", hexList(res.full), fmt.Sprintf("%s|listing|%d", sc.RPC, len(res.full)), "listing"})
@@ -607,6 +722,9 @@ func (sc scenario) summary() map[string]any {
 	}
 	if sc.Passes > 1 {
 		out["passes"] = sc.Passes
+	}
+	if sc.NInit > 0 {
+		out["ninit"] = sc.NInit
 	}
 	return out
 }
